@@ -268,7 +268,10 @@ def gcheck(toks):
     st, p = common.loads(script)
     if st == "exc":
         return ("C02/grammar-driven:load-raises:" + type(p).__name__, common.exc_sig(p) + " ;; " + line.strip())
-    errs = denote.compare(m, p)
+    # sentences are enumerated for their structure; a tower of powers with complex operands is ill-conditioned
+    # (relative error grows with the size of the exponent), so values are compared to 1e-9 here: a different
+    # grouping of operators is off by O(1)
+    errs = denote.compare(m, p, rtol=1e-9)
     if not errs:
         return None
     # classifier shared with the menu part: empty list keywords
@@ -279,7 +282,7 @@ def gcheck(toks):
             if len(kept) != len(oo["kwargs"]):
                 dropped = True
                 oo["kwargs"] = kept
-    if dropped and not denote.compare(m, p):
+    if dropped and not denote.compare(m, p, rtol=1e-9):
         return ("C02/empty-list-keyword", "; ".join(errs) + " ;; " + line.strip())
     return ("C02/grammar-driven:mismatch:" + "|".join(sorted(set(e.split("-", 1)[1] if e.startswith("op") else e.split(" ")[0] for e in errs))), "; ".join(errs)[:200] + " ;; " + line.strip())
 
